@@ -663,3 +663,31 @@ func evolvedObjectBigNames(ch *Choices, serial int, nameLen int) []byte {
 	b.WriteByte(0x92)
 	return b.Bytes()
 }
+
+// foreignChunkedBlob builds, without any library call, a peer's message whose value is a list holding a
+// binary in two or three chunks (the first chunks full-size) and a short trailer. Several decoders may be
+// handed the SAME byte slice: a message is read-only input.
+func foreignChunkedBlob(ch *Choices) []byte {
+	var b bytes.Buffer
+	b.WriteByte(0x57) // variable-length untyped list
+	chunks := ch.Range(2, 3, "blob.chunks")
+	fill := byte(ch.Intn(200, "blob.fill"))
+	for c := 0; c < chunks; c++ {
+		n := 4096
+		tag := byte('b')
+		if c == chunks-1 {
+			n = ch.Range(1, 2000, "blob.tail")
+			tag = 'B'
+		}
+		b.WriteByte(tag)
+		b.WriteByte(byte(n >> 8))
+		b.WriteByte(byte(n))
+		for i := 0; i < n; i++ {
+			b.WriteByte(fill + byte(i) + byte(c))
+		}
+	}
+	b.WriteByte(0x03)
+	b.WriteString("end")
+	b.WriteByte('Z')
+	return b.Bytes()
+}
